@@ -3,6 +3,7 @@ import TrucModel.Model.VecConvert
 import TrucModel.Model.Gen
 import TrucModel.Model.Machine
 import TrucModel.Model.Static
+import TrucModel.Model.CloneSerde
 /-
   Line-protocol driver (channel L): one request per line on stdin, one answer per line on stdout.
 -/
@@ -277,6 +278,53 @@ def run (xs : XS) (toks : List String) : XS × String :=
           | .ok st => match st.result with
             | .record nb => (setReg xs nreg vv nb, outLine "ok" st.drops (gets ++ st.acc))
             | _ => (xs, "machine-error no-result")
+    | _, _ => (xs, "bad-op")
+  | ["clonebomb", r, fi] =>
+    match r.toNat?, fi.toNat? with
+    | some reg, some fi =>
+      match getReg xs reg with
+      | none => (xs, "bad-op")
+      | some (vv, b) =>
+        match xs.specs[vv]? with
+        | none => (xs, "bad-op")
+        | some sp =>
+          let fs := sp.data.map fun d => (d, match b.find d with | some e => e.val | none => (⟨0, d.ty⟩ : Val))
+          let bombV := (fs[fi]?).map (·.2)
+          match Frag.cloneFields droppable cloneVal (fun v => some v == bombV) fs [] with
+          | .ok _ => (xs, "bad-op")
+          | .panicked k dropped =>
+            -- the driver reads the bombed field's id first (one more `get` of field k)
+            let gets := ((sp.data.take (k + 1)) ++ (sp.data.drop k).take 1).map fun d => (("get", d.offset, d.ty) : Access)
+            (xs, outLine "panic" dropped gets)
+    | _, _ => (xs, "bad-op")
+  | ["debad", fmt, r, kind, k] =>
+    match r.toNat?, k.toNat? with
+    | some reg, some k =>
+      match getReg xs reg with
+      | none => (xs, "bad-op")
+      | some (vv, b) =>
+        match xs.specs[vv]? with
+        | none => (xs, "bad-op")
+        | some sp =>
+          let vals := sp.data.map fun d => match b.find d with | some e => e.val | none => (⟨0, d.ty⟩ : Val)
+          let n := vals.length
+          let hinted := fmt == "bincode"
+          let elems : List (Option Val) :=
+            if kind == "trunc" then
+              (if hinted then (vals.take k).map some ++ List.replicate (n - k) none else (vals.take k).map some)
+            else if kind == "corrupt" then (vals.take k).map some ++ [none] ++ (vals.drop (k + 1)).map some
+            else vals.map some ++ [some ⟨0, "P8"⟩]
+          let gets1 := sp.data.map fun d => (("get", d.offset, d.ty) : Access)
+          let gets := if hinted then gets1 ++ gets1 else gets1
+          match Frag.deserialize droppable sp.data ⟨hinted, elems⟩ with
+          | .ok _ => (xs, outLine "ok?" [] gets)
+          | .err e dropped =>
+            let cls := match e with | .missingField _ => "missing" | .badElement _ => "bad" | .trailing => "trailing" | .invalidLength => "invalid-length"
+            -- a trailing-element rejection happens after the record was built and dropped again
+            let extra : List Access := match e with
+              | .trailing => (sp.data.map fun d => (("write", d.offset, d.ty) : Access)) ++ (sp.data.map fun d => (("read", d.offset, d.ty) : Access))
+              | _ => []
+            (xs, outLine s!"err {cls}" dropped (gets ++ extra))
     | _, _ => (xs, "bad-op")
   | ["clonefrom", dst, src] =>
     match dst.toNat?, src.toNat? with
